@@ -6,6 +6,7 @@ package server
 // logs, a private state/tmp directory, all inside one synctest bubble.
 
 import (
+	"syscall"
 	"bytes"
 	"context"
 	"crypto/sha256"
@@ -548,6 +549,7 @@ type vfCtl struct {
 	Fill    string `json:"fill,omitempty"` // with Size: the byte the body is made of (default "x")
 	Parts   int    `json:"parts,omitempty"` // with Size: written in this many flushed parts
 	Abort   bool   `json:"abort,omitempty"` // drop the connection instead of answering
+	UpDelayMs int  `json:"updelay,omitempty"` // with Upgrade: the 101 is sent this long after the request arrived
 }
 
 func (c vfCtl) header() string {
@@ -637,6 +639,10 @@ func (tg *vfTarget) ServeHTTP(rw http.ResponseWriter, r *http.Request) {
 	}
 
 	if ctl.Upgrade {
+		if ctl.UpDelayMs > 0 && !tg.wait(r.Context(), time.Duration(ctl.UpDelayMs)*time.Millisecond) {
+			finish(true)
+			return
+		}
 		hj, ok := rw.(http.Hijacker)
 		if !ok {
 			finish(false)
@@ -894,6 +900,28 @@ func vfSortedKeysFunc[K comparable, V any](m map[K]V, less func(a, b K) bool) []
 	}
 	sort.Slice(ks, func(i, j int) bool { return less(ks[i], ks[j]) })
 	return ks
+}
+
+// vfRealWait waits for done for at most d of REAL time (the bubble's clock stands still while a goroutine is
+// runnable or queued on a mutex; gettimeofday is not part of the bubble).
+func vfRealWait(done <-chan struct{}, d time.Duration) bool {
+	real := func() time.Duration {
+		var tv syscall.Timeval
+		syscall.Gettimeofday(&tv)
+		return time.Duration(tv.Sec)*time.Second + time.Duration(tv.Usec)*time.Microsecond
+	}
+	start := real()
+	for {
+		select {
+		case <-done:
+			return true
+		default:
+		}
+		if real()-start > d {
+			return false
+		}
+		runtime.Gosched()
+	}
 }
 
 func vfMs(ms int) time.Duration { return time.Duration(ms) * time.Millisecond }
